@@ -85,10 +85,17 @@ func (cs c03Case) build(e *Engine, fresh *uint64) Tx {
 		m.Nonce = c03UsedBase + uint64((v*7+int(mask))%c03UsedN)
 	}
 	if mask&A7Caller != 0 {
-		if v%2 == 0 {
+		switch v % 4 {
+		case 0:
 			m.Caller = ref.Pad32(AcctBytes(OtherIx))
-		} else {
+		case 1:
 			m.Caller = Structured32(0x5a)
+		case 2: // non-zero only in the 12 padding bytes: names the zero address, not the submitter
+			m.Caller = make([]byte, 32)
+			m.Caller[v%12] = 0x80 | byte(v)
+		case 3: // the submitter's address shifted by one byte
+			m.Caller = make([]byte, 32)
+			copy(m.Caller[11:31], addrBytes(from))
 		}
 	}
 	if cs.module {
@@ -164,7 +171,7 @@ func maskName(mask uint32) string {
 }
 
 func runC03(rc *RunCtx) {
-	variants := rc.Pick(2, 16)
+	variants := rc.Pick(4, 16)
 	var engines [4]*Engine
 	var fresh uint64 = 100000 + uint64(rc.Shard)*1000000
 	eng := func(mask uint32) *Engine {
